@@ -753,6 +753,51 @@ def gen_bounds(rng, N, nmax=5, exhaustive_upto=4):
     return out
 
 
+def gen_bounds_alpha(rng, N):
+    """larger sparse simple graphs (6..9 vertices: trees, caterpillars and double stars, random
+    bipartite graphs, sparse random graphs) for the independence number and the report entries
+    derived from it; the gonality search is skipped at these sizes (`with_gon` false)"""
+    out = []
+    for _ in range(N):
+        n = rng.randint(6, 9)
+        kind = rng.choice(["tree", "tree", "caterpillar", "bipartite", "sparse"])
+        E = {}
+        if kind == "tree":
+            for v in range(1, n):
+                E[(rng.randrange(v), v)] = 1
+        elif kind == "caterpillar":
+            spine = rng.randint(2, 3)
+            for v in range(1, spine):
+                E[(v - 1, v)] = 1
+            for v in range(spine, n):
+                E[(rng.randrange(spine), v)] = 1
+        elif kind == "bipartite":
+            a = rng.randint(2, n - 2)
+            for v in range(1, n):                       # spanning tree respecting the sides
+                side = v < a
+                cands = [u for u in range(v) if (u < a) != side] or [0]
+                u = rng.choice(cands)
+                if (u < a) != side:
+                    E[(u, v)] = 1
+                else:
+                    E[(u, v)] = 1
+            for _ in range(rng.randint(0, 4)):
+                u, v = rng.randrange(a), rng.randrange(a, n)
+                E[(u, v)] = 1
+        else:
+            for v in range(1, n):
+                E[(rng.randrange(v), v)] = 1
+            for _ in range(rng.randint(1, 4)):
+                u, v = rng.sample(range(n), 2)
+                E[(min(u, v), max(u, v))] = 1
+        perm = list(range(n))
+        rng.shuffle(perm)
+        E = {(min(perm[a], perm[b]), max(perm[a], perm[b])): 1 for (a, b) in E}
+        out.append({"op": "bounds", "n": n, "edges": gen.present_edges(rng, E, split=False), "names": gen.gen_names(rng, n),
+                    "_kind": "alpha-" + kind, "with_gon": False})
+    return out
+
+
 def multipartite_edges(parts):
     verts, start = [], 0
     groups = []
